@@ -127,6 +127,16 @@ CHECKS = {
              "time / frequency) is compared pixel for pixel with add_signal, exactly where doubles are exact and to 1e-9 otherwise; shipped "
              "families are compared with closed forms (numpy/scipy primitives trusted; RNG families only to envelope/reproducibility).",
         design="3/C01", technique="Coq proof (tabulated matrices, loop-to-closed-form induction) + exact-rational pixel correspondence"),
+    "C13": dict(
+        text="Theorems: every channel within half a width of the signal centre -- wherever the centre is during the sweep, smearing "
+             "sub-steps included -- lies inside the helper's (unclipped) bounding box, for every width > 0, either drift sign and any start "
+             "position; inside the box the bounded injection's pixel equals the unbounded one's (Leibniz, shared with C06), so for compact "
+             "profiles the helper equals general injection; sub-steps = max(1, ceil(|D|)) >= 1 with no sub-step moving more than a channel and "
+             "1 for zero drift, where smearing reduces to the unsmeared pixel; the sweep of -d is the mirror image of +d. The box columns and "
+             "sub-step count the helper passes on are compared with the rational model, the box-profile helper array with the model pixel for "
+             "pixel, and helper vs general injection (compact everywhere, tailed within FWHM), mirror symmetry and zero-drift smearing are "
+             "evaluated on the implementation for all five profile types.",
+        design="3/C13", technique="Coq proof over Q (floor/ceiling bounds by lra) + exact-rational and helper-vs-general correspondence"),
 }
 
 PENDING_REASON = "check not built yet in this session (planned in DESIGN.md section 3); no claim is made for it in this commit"
